@@ -279,6 +279,8 @@ func (c *ctx) replay(lines []string) {
 			continue
 		}
 		switch f[1] {
+		case "udoc":
+			streamReplay(c, f)
 		case "val":
 			sub, _ := strconv.ParseUint(f[3], 10, 64)
 			bad := len(f) > 4 && f[4] == "1"
@@ -421,6 +423,8 @@ func Run(r *common.Run) error {
 		r.Mark("case unwrap %d", k)
 		unwrapCase(c, c.rnd.Uint64(), "random")
 	}
+	// stream decoders (Unwrap on arbitrary documents) and inserting transformers
+	streamCases(c)
 	// pubsub request builders on a real session
 	nPub := r.Pick(60, 600)
 	for k := 0; k < nPub; k++ {
